@@ -8,7 +8,7 @@ from .c01 import reply_ok
 
 ID = "C19"
 BUDGET = {"quick": 45, "thorough": 700}
-MAX_RUNS = {"quick": 1200, "thorough": 200000}
+MAX_RUNS = {"quick": 5000, "thorough": 200000}
 TECHNIQUE = "deterministic simulation with fault injection: upstream kill / restart / black-hole placed at idle, connect, handshake and mid-transfer, repeated; bounded-recovery oracle after the last heal"
 RULE = ("plans: upstream kind (origin behind direct, fake HTTP proxy, fake SOCKS5 proxy, fake QUIC h11c server, load-balanced pair) x outage kind (kill: listener gone and "
         "connections reset; restart: kill then re-bind with fresh state; black-hole: packets vanish then heal) x placement (proxy idle, right after a tunnel reached "
